@@ -3,6 +3,7 @@ From Coq Require Import List NArith Bool.
 From Frugal Require Import Bytes Wire Skip Values Desc Spec Encode Decode Checks Tags State Bitset Alloc DescMap Conc LegacyDefs.
 From Frugal.gen Require Import Params.
 From Frugal.proofs Require Import GenOk BytesWire EncodeSpec SizeExact SkipPut DecodeSafe DecodeRefines RoundTrip Corollaries StateProofs BitsetProofs AllocProofs DescMapProofs ConcProofs BufferContract.
+From Frugal.proofs Require Import DecodeSound.
 From Frugal.props Require Import Examples.
 Import ListNotations.
 
@@ -20,8 +21,19 @@ Theorem C05_total : forall env pool sid bs dst, params_ok = true ->
   \/ (exists e, decode_object env pool sid bs dst = DErr e).
 Proof. exact decode_object_total. Qed.
 
-(* success exactly on well-formed messages: every well-formed prefix within the depth budgets is
-   accepted (C03_decode_is_absorb); truncated input is an error *)
+(* success ONLY on well-formed messages: whenever the decoder succeeds, the bytes consumed are the
+   encoding of a well-formed wire struct, n is its length, and the value is what the reference
+   decoder computes from it (the converse, acceptance of every well-formed message within the depth
+   budgets, is C03_decode_is_absorb) *)
+Theorem C05_sound : forall env pool sid bs dst v n rest,
+  params_ok = true -> env_ok env = true -> bytes_ok bs = true ->
+  decode_object env pool sid bs dst = DOk (v, n) rest ->
+  exists fs, wf (WStruct fs []) = true /\ bs = put (WStruct fs []) ++ rest
+             /\ n = len (put (WStruct fs [])) /\ absorb_top env sid (WStruct fs []) dst = AOk v.
+Proof. exact decode_sound. Qed.
+Print Assumptions C05_sound.
+
+(* truncated input is an error *)
 Theorem C05_empty_is_short : forall env pool sid sd fs h, params_ok = true -> lookup_sd env sid = Some sd ->
   decode_object env pool sid [] (VT fs h) = DErr EShort.
 Proof. exact decode_empty. Qed.
